@@ -94,7 +94,7 @@ CHECKS = {
     ref="DESIGN.md section 5 (C09)"),
  "C10": dict(
     technique="TLC trace validation of get_critical_path_breakdown / summary / attribution map against declarative attribution and bound-by rules (CriticalPath.tla), on graphs whose builder is model-checked in MC_CriticalPath / MC_LongestPath",
-    text="150/2500 analysed traces: one breakdown row per critical edge with the edge's weight and type, durations adding up to the path weight, every span edge attributed to an existing event of the same thread (or the same device activity) whose span covers the edge's time range, kernel-kernel delays to the preceding kernel, the bound-by class of every row, and summary shares = class sums / total adding up to 100.",
+    text="150/2500 analysed traces: one breakdown row per critical edge with the edge's weight and type, durations adding up to the path weight, every span edge attributed to an existing event of the same thread (or the same device activity) whose span covers the edge's time range, kernel-kernel delays to the preceding kernel, the bound-by class of every row, and summary shares = class sums / total adding up to 100. 60 % of the cases continue with a history on the same graph object: a what-if edit of the live graph, critical_path() again, breakdown and summary read again - every clause must hold for the edited graph and the recomputed path (after_recompute).",
     note="Communication kernels are recognised through the vocabulary table CommNames. " + TB,
     ref="DESIGN.md section 5 (C10)"),
  "C19": dict(
@@ -104,7 +104,7 @@ CHECKS = {
     ref="DESIGN.md section 5 (C19)"),
  "C20": dict(
     technique="TLA+ model of the file writers (TraceFiles / MC_TraceFiles: WithCounters, Overlay, RoundTrip, UpdateRank) checked by TLC + TLC trace validation of the files the real tool wrote (Trace_Files)",
-    text="TLC checks on every source of <=2 entries, every critical set and every set of drawn edges that the writers satisfy OnlyAppended / MarkedExactly / Filter / FlowPairs / FlowPlacement; 120/1500 cases: generated traces through generate_trace_with_counters and overlay_critical_path_analysis with all four option combinations (entries canonicalised and interned: source entries unchanged and in order, only counters / flow arrows appended, critical marker exactly on the path's events, one s/f pair per drawn edge on the pid/tid of the joined events), and write_trace/read_trace round trips, update_trace_rank with ranks 0..1000, create_rank_to_trace_dict on 1-4 files in both formats (again after the rank update, incl. files padded so that the rank digits straddle a block boundary), and generate_trace_with_counters for several ranks in one call.",
+    text="TLC checks on every source of <=2 entries, every critical set and every set of drawn edges that the writers satisfy OnlyAppended / MarkedExactly / Filter / FlowPairs / FlowPlacement; 120/1500 cases: generated traces through generate_trace_with_counters and overlay_critical_path_analysis with all four option combinations (entries canonicalised and interned: source entries unchanged and in order, only counters / flow arrows appended, critical marker exactly on the path's events, one s/f pair per drawn edge on the pid/tid of the joined events), and write_trace/read_trace round trips, update_trace_rank with ranks 0..1000, create_rank_to_trace_dict on 1-4 files in both formats (again after the rank update, incl. files padded so that the rank digits straddle a block boundary), and generate_trace_with_counters for several ranks in one call. Round-6 histories: rank discovery over the files generate_trace_with_counters has just written (written_keeps_rank), and the all-edges overlay written three times with CRITICAL_PATH_SHOW_ZERO_WEIGHT_LAUNCH_EDGE unset / 1 / 0 in one process.",
     note="Files are opened by magic bytes (gzip data under a .json name, observation O1). " + TB,
     ref="DESIGN.md section 5 (C20)"),
 }
